@@ -4,7 +4,8 @@ from tools.lv import hexs, unhex
 LEVEL = "proof"
 CORRESPONDENCE = ("Model/Mime.lean (format of single parts, multiparts and messages from header blocks, bodies and boundaries) vs "
                   "SinglePart / MultiPart / Message formatted(), MultiPart::boundary(), kinds and protocol/micalg parameters")
-RULE = ("mime: random trees up to depth 4 and fan-out 5 from plain/html/attachment-like/custom single parts and mixed / alternative / related / "
+RULE = ("mime: random trees up to depth 4 and fan-out 5 from plain/html/custom single parts, Attachment::new (file names with quotes, "
+        "backslashes, non-ASCII, long) and Attachment::new_inline parts and mixed / alternative / related / "
         "signed / encrypted multiparts, empty multiparts, generated and custom boundaries (incl. `a b` and `=_x'()+_,-./:=?`), leaf "
         "contents with `--` lines and boundary-like text, every transfer encoding; each tree is formatted alone, twice, cloned, and as "
         "the body of a message; an RFC 2046 reader (Spec/MimeParse.lean) recovers the structure from the message octets and it is "
@@ -32,8 +33,19 @@ def valid_utf8(b):
         return False
 
 
+ATT_NAMES = ["x.txt", "report final.pdf", 'report "final".pdf', "C:\\temp\\new.txt", "résumé.pdf", "日本語.txt", "a" * 70 + ".bin", 'q"' * 10, "semi;colon.txt",
+             "it's", "a b c " * 12, "trailing\\", "=?utf-8?b?eA==?=.txt"]
+CIDS = ["img1", "part1.06090408.01060107@example.org", "a b"]
+
+
 def tree(rng, depth, used):
     if depth == 0 or rng.random() < 0.55:
+        if rng.random() < 0.18:
+            # Attachment::new / Attachment::new_inline
+            c = rng.choice(CONTENTS)
+            if rng.random() < 0.6:
+                return f"A {hexs(rng.choice(ATT_NAMES))} {hexs(rng.choice(CTYPES))} {hexs(c) if c else '-'}"
+            return f"I {hexs(rng.choice(CIDS))} {hexs(rng.choice(CTYPES))} {hexs(c) if c else '-'}"
         c = rng.choice(CONTENTS)
         if rng.random() < 0.2:
             c = bytes(rng.choice(b"ab-\n\r =\xc3\xa9") for _ in range(rng.randint(0, 60)))
@@ -110,7 +122,8 @@ def distribution(cases):
     d = {"root_single": 0, "root_multi": 0, "depth>=2": 0, "custom_boundary": 0, "empty_multipart": 0}
     for c in cases:
         t = c.split("\t")[1]
-        d["root_single" if t.startswith("S") else "root_multi"] += 1
+        d["root_single" if t[:1] in "SAI" else "root_multi"] += 1
+        d["attachments"] = d.get("attachments", 0) + t.count("A ") + t.count("I ")
         d["depth>=2"] += t.count("M ") >= 2
         d["custom_boundary"] += any(x.startswith("M") and False for x in [t]) or (" 6120622" in t or "73696d706c65" in t)
         d["empty_multipart"] += " 0" in t
@@ -118,7 +131,7 @@ def distribution(cases):
 
 
 def _toplevel_single(f, o, v):
-    return f[0] == "mime" and f[1].startswith("S ") and "toplevel-singlepart-content-has-an-extra-CRLF" in v
+    return f[0] == "mime" and f[1][:2] in ("S ", "A ", "I ") and "toplevel-singlepart-content-has-an-extra-CRLF" in v
 
 
 FINDING_CLASSES = {"toplevel-singlepart-trailing-crlf": _toplevel_single}
